@@ -28,6 +28,8 @@ WellFormedViol(f, unk) ==
     ELSE V(Len(f.tidx) = f.nblocks, "TypeIndexPerBlock")
          \cup V(f.hs => Len(f.sizes) = f.nblocks, "SizePerBlock")
          \cup V(\A k \in 1..Len(f.tidx) : f.tidx[k] < Len(f.types), "TypeIndexInRange")
+         \* the type the table gives a block is the type of the block the model wrote there (known from the writing model)
+         \cup V(\A k \in 1..Len(f.blocks) : "mtype" \notin DOMAIN f.blocks[k] \/ f.blocks[k].mtype = f.blocks[k].type, "TypeTableNamesTheBlocks")
          \cup V(\A a \in 1..Len(f.types) : \E k \in 1..Len(f.tidx) : f.tidx[k] = a - 1, "NoUnusedTypeName")
          \cup V(\A a, b \in 1..Len(f.types) : a # b => f.types[a] # f.types[b], "TypeNamesDistinct")
          \cup V(f.walked /\ f.end + 8 = f.len, "SizeWalkLandsOnFooter")
